@@ -922,6 +922,8 @@ func codecOutputParam(fn *ssa.Function, pi int) bool {
 
 var configGlobals = map[string]bool{"SupportNegativeIndices": true, "AccumulatedCopySizeLimit": true}
 
+var extraGlobalsHook func(c *Ctx, b *Body, pkg *ssa.Package, lab string, g *ssa.Global)
+
 func isSyncContainer(t types.Type) bool {
 	n, ok := t.(*types.Named)
 	if !ok || n.Obj().Pkg() == nil || n.Obj().Pkg().Path() != "sync" {
@@ -1031,6 +1033,9 @@ func ruleGlobals(c *Ctx) {
 							}
 						}
 					}
+				}
+				if n, ok := et.(*types.Named); ok && isSyncContainer(et) && n.Obj().Name() == "Map" && extraGlobalsHook != nil {
+					extraGlobalsHook(c, b, pkg, lab, g)
 				}
 				switch {
 				case isSyncContainer(et):
